@@ -10,7 +10,7 @@ import RV.C04.QueryLemmas
 
   Statements first, then what is proved:
     * `Statement_pushdown_unconditional` is what C04 literally asks (every well-formed query).  It is FALSE of the
-      pinned code: `pushdown_witness_K1..K3`, `pushdown_unconditional_witness` (known findings C04-K1..K3: rdflib's
+      pinned code: `pushdown_witness_K1/K2`, `pushdown_unconditional_witness` (known findings C04-K1, C04-K2: rdflib's
       `_vars` annotation is not the exact set of variables a sub-pattern binds).
     * `pushdown : Statement_pushdown` (= `pushdown_partial`): under the decidable hypothesis `Alg.safe` push-down is
       exact for EVERY operator of the property — BGP incl. rdflib's re-ordering, lazy and non-lazy Join, Union,
@@ -187,11 +187,6 @@ open Spec Model
 def i (k : Nat) : Term := .iri k
 def tp (s p o : Pos) : TP := ⟨s, p, o⟩
 
-/-- K3: `{ ?v0 <10> ?v1 . { FILTER(bound(?v0)) } }` — Filter._vars = {v0} although the inner group binds nothing -/
-def k3Pattern : Alg :=
-  .join true (.bgp [tp (.var 0) (.const (i 10)) (.var 1)]) (.filter (.bound 0) (.bgp []) [0] false)
-def k3Data : Dataset := ⟨[(i 0, i 10, i 0)], []⟩
-
 /-- K1: `{ <0> ?v2 <0> . { FILTER(bound(?v2)) { ?v3 <10> ?v2 } UNION { } } }` — v2 is bound by one UNION branch only -/
 def k1Pattern : Alg :=
   .join true (.bgp [tp (.const (i 0)) (.var 2) (.const (i 0))])
@@ -201,14 +196,10 @@ def k1Data : Dataset := ⟨[(i 0, i 0, i 0)], []⟩
 /-- K2: `{ VALUES (?v0) { (<1>) (<2>) } OPTIONAL { ?v0 <10> ?v1 } }` — `_vars` of the VALUES block is empty -/
 def k2Pattern : Alg :=
   .leftJoin (.values [0] [[some (i 1)], [some (i 2)]]) (.bgp [tp (.var 0) (.const (i 10)) (.var 1)])
-    (.const (.bool true)) (some []) [0, 1]
+    (.const (.bool true)) (some []) (some [0, 1])
 def k2Data : Dataset := ⟨[(i 1, i 10, i 0)], []⟩
 
-example : k3Pattern.safe = false ∧ k1Pattern.safe = false ∧ k2Pattern.safe = false := by decide
-
-theorem pushdown_witness_K3 :
-    (Model.evalPart k3Data k3Data.dflt (Row.empty : Row 2) k3Pattern).length = 1 ∧
-    (Spec.eval k3Data k3Data.dflt (Row.empty : Row 2) k3Pattern).length = 0 := by decide
+example : k1Pattern.safe = false ∧ k2Pattern.safe = false := by decide
 
 theorem pushdown_witness_K1 :
     (Model.evalPart k1Data k1Data.dflt (Row.empty : Row 4) k1Pattern).length = 1 ∧
@@ -221,8 +212,8 @@ theorem pushdown_witness_K2 :
 /-- the property as literally stated (no `Safe` hypothesis) does not hold of the code as it is -/
 theorem pushdown_unconditional_witness : ¬ Statement_pushdown_unconditional := by
   intro h
-  have := (h 2 k3Data k3Pattern (by unfold Dataset.WF; decide) (by unfold WellScoped; decide) k3Data.dflt Row.empty).length_eq
-  rw [push_empty, pushdown_witness_K3.1, pushdown_witness_K3.2] at this
+  have := (h 4 k1Data k1Pattern (by unfold Dataset.WF; decide) (by unfold WellScoped; decide) k1Data.dflt Row.empty).length_eq
+  rw [push_empty, pushdown_witness_K1.1, pushdown_witness_K1.2] at this
   cases this
 
 /-! ### Non-vacuity: the hypotheses of the proved theorems are met by non-trivial queries -/
